@@ -30,8 +30,9 @@ TRUSTED = [
     "compiled polar-model agrees with the kernel semantics of the same definitions (relationHolds, latticeBasis, "
     "inIntSpan, independent, kernelAsCoded)",
     "harness: generator, conversion of rationals to sympy numbers, transport of integer rows as JSON",
-    "algebraic tier only: sympy minimal_polynomial / evalf(80) for mixed-field bases; for ℚ(√D) the pair "
-    "arithmetic of Polar/Lattice.lean (not covered by a theorem); completeness there is bounded enumeration (a test)",
+    "algebraic tier only: sympy minimal_polynomial / evalf(80) for mixed-field bases; for ℚ(√D) the pair arithmetic "
+    "of Polar/Lattice.lean is proved exact (relationHoldsQuad_iff) but completeness there is bounded enumeration (a "
+    "test), and the harness' translation a + b*sqrt(D) -> sympy expression is trusted",
 ]
 
 # theorem name -> (bases, what the code must return for the counterexample to be a replay of the real code)
@@ -298,8 +299,8 @@ def run(tier):
     lean_ok = lean_gate(chk, THEOREMS)
     quick = tier == "quick"
     r = rng(f"{PROP}-{tier}")
-    n_rat = 360 if quick else 6000
-    n_quad = 45 if quick else 400
+    n_rat = 3000 if quick else 120000
+    n_quad = 200 if quick else 5000
     # ---------------- rational tier
     cases, seen = [], set()
     for i, bs in enumerate(CORPUS_RATIONAL):
@@ -324,6 +325,7 @@ def run(tier):
     model_diffs = []
     fam_stats = {}
     reported = set()
+    sampled = set()
     for x in recs:
         chk.evaluations += 1
         fs = fam_stats.setdefault(x["family"], {"n": 0, "pass": 0, "known": 0, "nontrivial": 0})
@@ -358,9 +360,10 @@ def run(tier):
         if ok:
             n_pass += 1
             fs["pass"] += 1
-            if v.get("spec_basis"):
-                chk.sample({"bases": x["bases"], "compute_basis": x["out"]["basis"], "verified_basis": v["spec_basis"],
-                            "verdict": "sound, independent, complete"}, limit=4)
+            if v.get("spec_basis") and tuple(x["bases"]) not in sampled and x["family"] != "corpus":
+                sampled.add(tuple(x["bases"]))
+                chk.sample({"bases": x["bases"], "family": x["family"], "compute_basis": x["out"]["basis"],
+                            "verified_basis": v["spec_basis"], "verdict": "sound, independent, complete"}, limit=3 + sum(1 for q in chk.samples if "known_finding" in q))
             continue
         fid = attribute(PROP, x)
         if fid:
@@ -368,9 +371,10 @@ def run(tier):
             fs["known"] += 1
             chk.count("known:" + fid[0])
             chk.known(fid[0], fid[1])
-            if chk.counts["known:" + fid[0]] <= 2:
+            if tuple(x["bases"]) not in sampled and sum(1 for q in chk.samples if q.get("known_finding") == fid[0]) < 2:
+                sampled.add(tuple(x["bases"]))
                 chk.sample({"known_finding": fid[0], "bases": x["bases"], "compute_basis": x["out"]["basis"],
-                            "verified_basis": v["spec_basis"], "fails": failing_clauses(v)}, limit=8)
+                            "verified_basis": v["spec_basis"], "fails": failing_clauses(v)}, limit=99)
             continue
         n_viol += 1
         if len(reported) < 5:
@@ -429,9 +433,12 @@ def run(tier):
             if v["box_nonzero"] > 0:
                 chk.nontrivial.add(("quad", x["D"], tuple(map(tuple, x["bases"]))))
                 chk.sample({"field": f"Q(sqrt({x['D']}))", "bases": x["exprs"], "compute_basis": x["out"]["basis"],
-                            "box": x["bound"], "relations_in_box": v["box_relations"]}, limit=7)
+                            "box": x["bound"], "relations_in_box": v["box_relations"]},
+                           limit=3 + sum(1 for q in chk.samples if "field" not in q))
         else:
             q_fail += 1
+            if q_fail > 6:
+                continue
             cl = [c for c, bad in (("shape", not v["shape_ok"]), ("soundness", not all(v["sound"])),
                                    ("independence", not v["independent"]), ("completeness", not v["complete_in_box"])) if bad]
             chk.violation(f"bases {x['exprs']} in Q(sqrt({x['D']})): compute_basis() = {x['out']['basis']} fails "
@@ -441,7 +448,7 @@ def run(tier):
                    {"cases": len(qrecs), "pass": q_pass, "fail": q_fail,
                     "note": "soundness exact (pair arithmetic); completeness only inside the box |e_i| <= bound"})
     # ---------------- mixed-field tier (test, sympy exact arithmetic)
-    ecases = CORPUS_EXPR if not quick else CORPUS_EXPR[:9]
+    ecases = CORPUS_EXPR
     erecs = analyse_expr(ecases, 150 if quick else 600) if lean_ok else []
     e_pass = e_fail = 0
     for x in erecs:
@@ -460,8 +467,13 @@ def run(tier):
             e_pass += 1
             if any(any(e) for e in x["out"]["box_relations"]):
                 chk.nontrivial.add(("expr", tuple(x["exprs"])))
+                chk.sample({"bases": x["exprs"], "compute_basis": x["out"]["basis"], "box": x["bound"],
+                            "relations_in_box": len(x["out"]["box_relations"]), "oracle": "sympy minimal_polynomial"},
+                           limit=2 + sum(1 for q in chk.samples if "oracle" not in q))
         else:
             e_fail += 1
+            if e_fail > 6:
+                continue
             miss = [e for e, b in zip(x["out"]["box_relations"], v["in_span"]) if not b]
             chk.violation(f"bases {x['exprs']}: compute_basis() = {x['out']['basis']}: sound={x['out']['sound']} "
                           f"independent={v['independent']} relations not generated: {miss[:3]}", replay_blob(x))
@@ -480,8 +492,10 @@ def run(tier):
              "and the code's answer passes all three verdicts; distinct by input list.  Algebraic lists: non-trivial iff a "
              "non-zero relation exists in the box",
         trusted_base=TRUSTED,
-        explanation="Proof part: theorems c16_rational (verified basis), c16_check_sound (a green verdict of lattice_check implies "
-                    "the returned rows are a Z-basis of the exponent lattice), relation_iff_valuations, intKernel_isBasis. "
+        explanation="Proof part: theorems c16_rational (verified basis), c16_check_iff (the three verdicts of lattice_check hold "
+                    "iff the returned rows are a Z-basis of the exponent lattice), relation_iff_valuations, intKernel_isBasis, "
+                    "c16_partial_trivial (the coprimality shortcut is right when no base is 1), counterexample theorems for "
+                    "the code as modelled (kernelAsCoded). "
                     "The tie to the code is sampled: every sampled rational list is judged by those verified procedures. "
                     "Irrational/complex lists are a test (sound exactly, complete within a box).",
         extra={"rational_by_family": fam_stats})
